@@ -109,6 +109,34 @@ func runSelfValidation(prop, repo, verif string, res *Result) {
 		}
 		muts = append(muts, m)
 	}
+	// behaviour-preserving restructurings written by independent sub-agents (refactors/<id>/): a
+	// property runs those made for it and those that once raised one of its alarms
+	rmetas, _ := filepath.Glob(filepath.Join(verif, "refactors", "*", "meta.json"))
+	sort.Strings(rmetas)
+	for _, mf := range rmetas {
+		b, err := os.ReadFile(mf)
+		if err != nil {
+			continue
+		}
+		var meta struct {
+			ID     string   `json:"id"`
+			Title  string   `json:"title"`
+			Alarms []string `json:"alarms_at_first_contact"`
+		}
+		if json.Unmarshal(b, &meta) != nil || meta.ID == "" {
+			continue
+		}
+		mine := strings.HasPrefix(meta.ID, prop+"-")
+		for _, a := range meta.Alarms {
+			if strings.HasPrefix(a, prop+":") {
+				mine = true
+			}
+		}
+		if !mine {
+			continue
+		}
+		muts = append(muts, mutant{Name: "refactor-" + meta.ID, Kind: "refactor", Desc: meta.Title, Patch: filepath.Join(filepath.Dir(mf), "patch.diff")})
+	}
 	results := make([]mutantResult, len(muts))
 	sem := make(chan struct{}, 6)
 	var wg sync.WaitGroup
